@@ -21,6 +21,10 @@ pub enum DamageKind {
     TruncateHalf,
     Garbage,
     BitFlip,
+    /// Structured garbage: an index hunk that still decompresses and parses as JSON, with one
+    /// field of one entry set to an extreme value (reaches the code behind the decoder, which
+    /// random bytes almost never do).
+    HunkField,
 }
 
 #[derive(Clone, Debug, PartialEq, Serialize, Deserialize)]
@@ -239,6 +243,30 @@ pub fn apply_damage(w: &World, path: &str, kind: &DamageKind, arg: u64) -> bool 
                 let mut r = Rng::new(arg ^ 0x6a7b);
                 let n = old.len().max(8);
                 m.put_file(path, r.bytes(n));
+            }
+            DamageKind::HunkField => {
+                let Ok(raw) = crate::format::snappy_decompress(&old) else { return false };
+                let Ok(mut v) = serde_json::from_slice::<Value>(&raw) else { return false };
+                let Some(list) = v.as_array_mut() else { return false };
+                if list.is_empty() {
+                    return false;
+                }
+                let idx = (arg % list.len() as u64) as usize;
+                let e = &mut list[idx];
+                let has_addrs = e.get("addrs").and_then(|a| a.as_array()).map(|a| !a.is_empty()).unwrap_or(false);
+                match (arg >> 16) % 10 {
+                    0 => e["mtime_nanos"] = serde_json::json!(1_000_000_000u64),
+                    1 => e["mtime_nanos"] = serde_json::json!(4_294_967_295u64),
+                    2 => e["mtime"] = serde_json::json!(i64::MAX),
+                    3 => e["mtime"] = serde_json::json!(i64::MIN),
+                    4 if has_addrs => e["addrs"][0]["start"] = serde_json::json!(u64::MAX),
+                    5 if has_addrs => e["addrs"][0]["len"] = serde_json::json!(u64::MAX),
+                    6 if has_addrs => e["addrs"][0]["len"] = serde_json::json!(1u64 << 40),
+                    7 => e["kind"] = serde_json::json!("Unknown"),
+                    8 => e["unix_mode"] = serde_json::json!(4_294_967_295u64),
+                    _ => e["mtime_nanos"] = serde_json::json!(999_999_999u64 + 2),
+                }
+                m.put_file(path, crate::format::snappy_compress(&serde_json::to_vec(&v).unwrap()));
             }
             DamageKind::BitFlip => {
                 if old.is_empty() {
